@@ -63,7 +63,7 @@ func checkC10(c *Ctx) {
 	var pgaBuilders = map[*ssa.Function]bool{}
 	for _, am := range ams {
 		f := am.Fn
-		name := f.Name()
+		name := fnName(f)
 		where := p.Pos(f.Pos())
 		c.Count("engine_action_methods", 1)
 		// R1
@@ -327,7 +327,7 @@ func checkEngineValidator(c *Ctx, f *ssa.Function) {
 	where := p.Pos(f.Pos())
 	oks, _, _, _, ab := p.ExitsWithGuards(f)
 	if ab || len(oks) == 0 {
-		c.Undecided("R6", "engine-validator:"+f.Name(), where, "could not enumerate exits")
+		c.Undecided("R6", "engine-validator:"+fnName(f), where, "could not enumerate exits")
 		return
 	}
 	good := true
@@ -343,9 +343,9 @@ func checkEngineValidator(c *Ctx, f *ssa.Function) {
 			good = false
 		}
 	}
-	c.Check(good, "R6", "engine-validator:"+f.Name(), where, "ok ⇒ status playing ∧ index set", "engine-side validator has a success exit without (status == playing ∧ hand index != unset)")
+	c.Check(good, "R6", "engine-validator:"+fnName(f), where, "ok ⇒ status playing ∧ index set", "engine-side validator has a success exit without (status == playing ∧ hand index != unset)")
 	// and it is effect-free
-	c.Check(!p.MayMutate(f, heapWatch()), "R6", "engine-validator-pure:"+f.Name(), where, "validator has no effects", "validator performs effects")
+	c.Check(!p.MayMutate(f, heapWatch()), "R6", "engine-validator-pure:"+fnName(f), where, "validator has no effects", "validator performs effects")
 }
 
 func checkGameSide(c *Ctx) {
@@ -450,7 +450,7 @@ func checkGameSide(c *Ctx) {
 				good = false
 			}
 		}
-		c.Check(good, "R6", "current-player-validator:"+v.Name(), p.Pos(v.Pos()), "ok ⇒ player exists ∧ index == current player", "current-player validator has a success exit without (GetPlayer(idx) != nil ∧ CurrentPlayer == idx)")
+		c.Check(good, "R6", "current-player-validator:"+fnName(v), p.Pos(v.Pos()), "ok ⇒ player exists ∧ index == current player", "current-player validator has a success exit without (GetPlayer(idx) != nil ∧ CurrentPlayer == idx)")
 	}
 	// converse (C11 needs answers from asked players to be accepted): a validator refuses only for one of its reasons
 	refusalReasons := func(v *ssa.Function, reasons func(gs []Guard) bool, what string) {
@@ -463,7 +463,7 @@ func checkGameSide(c *Ctx) {
 				where = p.InstrPos(errRets[i])
 			}
 		}
-		c.Check(ok, "R6", "validator-refuses-only-for-cause:"+v.Name(), where, "every refusal has one of the validator's reasons", "the "+what+" refuses a move although none of its reasons holds (or for the opposite of a reason)")
+		c.Check(ok, "R6", "validator-refuses-only-for-cause:"+fnName(v), where, "every refusal has one of the validator's reasons", "the "+what+" refuses a move although none of its reasons holds (or for the opposite of a reason)")
 	}
 	for v := range playValidators {
 		refusalReasons(v, func(gs []Guard) bool {
@@ -502,7 +502,7 @@ func checkGameSide(c *Ctx) {
 				good = false
 			}
 		}
-		c.Check(good, "R6", "allowed-action-validator:"+v.Name(), p.Pos(v.Pos()), "ok ⇒ player exists ∧ HasAction(idx, action)", "allowed-action validator has a success exit without (GetPlayer(idx) != nil ∧ HasAction(idx, action))")
+		c.Check(good, "R6", "allowed-action-validator:"+fnName(v), p.Pos(v.Pos()), "ok ⇒ player exists ∧ HasAction(idx, action)", "allowed-action validator has a success exit without (GetPlayer(idx) != nil ∧ HasAction(idx, action))")
 	}
 	c.Min("R6", "hand-side validators", len(playValidators)+len(actValidators), 2)
 }
